@@ -1,5 +1,6 @@
 SPECIFICATION Spec
 CONSTANTS FifoCancellable = TRUE
+  WaitCancellable = TRUE
   MaxCancel = 14
   Mode = "mc"
 INVARIANTS TypeOK NoStuck WakeSound EmitShape
